@@ -218,7 +218,10 @@ def get_kwargs_contract(pkg, doc, opid, method, path, params, content, version):
                                 f"argument, params/cookies/headers keyed by the wire names with unset optional arguments "
                                 f"left out, body under the key of its media type with a matching Content-Type -- and "
                                 f"nothing else", props=["C03", "C10"])]
-    case = Case(f"get_kwargs[{version}]", make, clauses, raises=(), props=["C03", "C10"])
+    ver = version if version in ("3.0.3", "3.1.0") else "3.0.3"
+    case = Case(f"get_kwargs[{version}]", make, clauses, raises=(), props=["C03", "C10"],
+                pool=(lambda: [{"version": ver, "opid": opid}]) if not version.startswith("capture") else None,
+                native_target="pyvc.fragnative:get_kwargs_violation")
     return FnContract(f"{pkg.name}.api.{tag}.{opid}:_get_kwargs", [case])
 
 
@@ -540,7 +543,9 @@ def parse_response_contract(pkg, doc, opid, responses, version, entry="_parse_re
         import http
         clauses[-1].known = ["C04-K1-nonstandard-status-valueerror"]
         clauses[-1].restrict = lambda inputs, I: z3.Or(*[z3.Int("status") == m.value for m in http.HTTPStatus])
-    case = Case(f"{entry}[{version}]", make, clauses, raises=(Exception,), props=["C04"])
+    case = Case(f"{entry}[{version}]", make, clauses, raises=(Exception,), props=["C04"],
+                pool=(lambda: [{"version": version, "opid": opid}]) if opid == "op_resp" else None,
+                native_target="pyvc.fragnative:parse_response_violation")
     return FnContract(f"{pkg.name}.api.r.{opid}:{entry}", [case])
 
 
